@@ -1260,10 +1260,14 @@ def oracle_check(steps, regs, rng, rep, vscale=1.0, compiled_from=0):
             continue
         if not same_value(rv2, rv):
             fails.append({"what": "evaluating the same object twice gives two values", "steps": repr(steps[:i + 1]), "step": i, "values": values})
+        # a power whose exponent is itself computed is np.power on general floats: the compiled (array) and the scalar
+        # call of the same ufunc may differ in the last unit; every other operation of the recipes is exact
+        transcendental = any(t[0] == "arith" and t[1] == "**" and t[3][0] == "r" for t in steps[:i + 1])
         for idx, cv in comp:
             want = np.asarray(nv, dtype=float)[idx] if idx else np.asarray(nv, dtype=float)
             rep.histogram["compiled-channel"] = rep.histogram.get("compiled-channel", 0) + 1
-            if not same_value(cv, want):
+            if not same_value(cv, want) and not (transcendental and np.shape(cv) == np.shape(want)
+                                                 and np.allclose(cv, want, rtol=1e-13, atol=0.0, equal_nan=True)):
                 fails.append({"what": "compiled value differs from the NumPy interpretation", "steps": repr(steps[:i + 1]), "step": i,
                               "values": values, "element": list(idx), "got": repr(cv)[:120], "want": repr(want)[:120]})
                 break
